@@ -24,6 +24,7 @@
 -/
 import PsutilModel.Proofs.C18Code
 import PsutilModel.Proofs.C18Who
+import PsutilModel.Proofs.C18Num
 import PsutilModel.Model.C18Gen
 namespace Psutil.C18
 open Spec
@@ -710,6 +711,77 @@ theorem C18_remembered_pid_shortcut_counterexample :
     -- keyed on os.getpid() in the call: right for the child and for the importer
     ((stepPyW cfg { Routing.direct with rlimitSet := .callerIf .now } ⟨7, 9⟩ kFork 7 ⟨0, none⟩
       (.rlimit (.int 7) (some (.tuple, [50, 200])))).2.procs 7).map (fun st => st.rlimits 7) = some (50, 200) := by
+  decide
+
+/-! #### seeded round 5 (change C01-7): the magnitude of a CPU number, the width it is held in -/
+
+/-- **proof obligation**: the native setter holds a CPU number in a C long from `PyLong_AsLong` to
+    `CPU_SET` (no narrower variable, no narrowing cast) -/
+theorem cfg_cpu_number_held_as_long : cpuNumBits = 64 := by decide
+
+/-- **C18_any_cpu_number_refines.** The refinement with the magnitude of the CPU numbers as a
+    dimension: `stepPyN cpuNumBits cfg routing` — what the driver runs, the native loop seeing each
+    number as the C variable holds it — yields exactly what the specification promises, for CPU
+    lists of ints of ANY magnitude (the specification reads a CPU number as the integer it is). -/
+theorem C18_any_cpu_number_refines (og : Origin) (k : Kernel) (pid : Nat) (st : PState) (x : Ctx) (r : PyReq)
+    (o : Out) (k' : Kernel) (hpid : pid ≠ 0) (hst : k.procs pid = some st) (hwf : WF k st)
+    (hs : Spec.expectPy k pid st r = .promised o k') : stepPyN cpuNumBits cfg routing og k pid x r = (o, k') := by
+  rw [cfg_cpu_number_held_as_long, stepPyN_long]
+  exact C18_any_caller_refines_code og k pid st x r o k' hpid hst hwf hs
+
+/-- **C18_unusable_cpu_numbers_any_magnitude.** "A CPU list naming only nonexistent or ineligible
+    CPUs raises ValueError and changes nothing" for numbers of every magnitude — `2^32 + 3`,
+    `2^40`, `-2^32`, beyond the C long — in every list form, context, caller: no such number is ever
+    taken for a CPU that exists. -/
+theorem C18_unusable_cpu_numbers_any_magnitude (og : Origin) (k : Kernel) (pid : Nat) (st : PState) (f : CpuForm)
+    (cpus : List Int) (x : Ctx) (hpid : pid ≠ 0) (hst : k.procs pid = some st) (hwf : WF k st)
+    (hperm : Spec.permitted k st (.cpuAffinity (some cpus)) = true) (h : OnlyUnusableAny k st cpus) :
+    stepPyN cpuNumBits cfg routing og k pid x (.cpuAffinity (some (f, cpus))) = (.exc .valueError, k) := by
+  refine C18_any_cpu_number_refines og k pid st x (.cpuAffinity (some (f, cpus))) _ _ hpid hst hwf ?_
+  rw [expectPy_affinity_set k pid st f cpus (Or.inr h.1), expectP_of_permitted hperm]
+  exact expect_of_onlyUnusableAny pid h
+
+/-- **C18_valid_cpus_exactly_that.** … and a list of eligible CPUs is
+    installed exactly (the promise for valid values, restated for what the driver runs). -/
+theorem C18_valid_cpus_exactly_that (og : Origin) (k : Kernel) (pid : Nat) (st : PState) (x : Ctx) (r : PyReq)
+    (o : Out) (k' : Kernel) (hpid : pid ≠ 0) (hst : k.procs pid = some st) (hwf : WF k st)
+    (hs : Spec.expectPy k pid st r = .promised o k') :
+    (stepPyN cpuNumBits cfg routing og k pid x r).1 = o ∧ (stepPyN cpuNumBits cfg routing og k pid x r).2 = k' := by
+  rw [C18_any_cpu_number_refines og k pid st x r o k' hpid hst hwf hs]
+  exact ⟨rfl, rfl⟩
+
+/-- **why the width matters** (seeded C01-7 and its relatives). Process 7 of `kWitness` (4 CPUs,
+    confined to CPUs 0-1, currently on CPU 0). Held in a 32-bit int, `2^32 + 1` — no CPU at all —
+    becomes CPU 1: the call "succeeds" and the process moves to CPU 1, where the property promises
+    ValueError and no change (which is what the code as it is does); mixed with a real CPU it adds
+    a CPU nobody asked for; `2^32 - 1` becomes the `-1` of "invalid CPU value"; a 10-bit wrap
+    (`number % 1024`) does the same with `1025`; numbers below `2^31` behave alike in both, which
+    is why no test with ordinary CPU numbers sees the difference. -/
+theorem C18_narrow_cpu_number_counterexample :
+    (stepPyN 32 cfg routing ⟨1, 1⟩ kWitness 7 ⟨0, none⟩ (.cpuAffinity (some (.list, [4294967297])))).1 = .ok .none ∧
+    ((stepPyN 32 cfg routing ⟨1, 1⟩ kWitness 7 ⟨0, none⟩ (.cpuAffinity (some (.list, [4294967297])))).2.procs 7).map
+      (·.affinity) = some [1] ∧
+    -- the code as it is
+    (stepPyN cpuNumBits cfg routing ⟨1, 1⟩ kWitness 7 ⟨0, none⟩ (.cpuAffinity (some (.list, [4294967297])))).1 =
+      .exc .valueError ∧
+    ((stepPyN cpuNumBits cfg routing ⟨1, 1⟩ kWitness 7 ⟨0, none⟩ (.cpuAffinity (some (.list, [4294967297])))).2.procs 7).map
+      (·.affinity) = some [0] ∧
+    -- mixed with a real CPU: a CPU that was never requested
+    ((stepPyN 32 cfg routing ⟨1, 1⟩ kWitness 7 ⟨0, none⟩ (.cpuAffinity (some (.list, [0, 4294967297])))).2.procs 7).map
+      (·.affinity) = some [0, 1] ∧
+    ((stepPyN cpuNumBits cfg routing ⟨1, 1⟩ kWitness 7 ⟨0, none⟩ (.cpuAffinity (some (.list, [0, 4294967297])))).2.procs 7).map
+      (·.affinity) = some [0] ∧
+    -- negative after the wrap: dropped as before; 2^32 - 1 is "invalid CPU value"
+    (stepPyN 32 cfg routing ⟨1, 1⟩ kWitness 7 ⟨0, none⟩ (.cpuAffinity (some (.list, [1, 2147483649])))).1 = .ok .none ∧
+    (stepPyN 32 cfg routing ⟨1, 1⟩ kWitness 7 ⟨0, none⟩ (.cpuAffinity (some (.list, [1, 4294967295])))).1 = .exc .valueError ∧
+    (stepPyN cpuNumBits cfg routing ⟨1, 1⟩ kWitness 7 ⟨0, none⟩ (.cpuAffinity (some (.list, [1, 4294967295])))).1 = .ok .none ∧
+    -- another modulus: the number taken modulo CPU_SETSIZE
+    ((stepPyN 10 cfg routing ⟨1, 1⟩ kWitness 7 ⟨0, none⟩ (.cpuAffinity (some (.list, [1025])))).2.procs 7).map
+      (·.affinity) = some [1] ∧
+    (stepPyN cpuNumBits cfg routing ⟨1, 1⟩ kWitness 7 ⟨0, none⟩ (.cpuAffinity (some (.list, [1025])))).1 = .exc .valueError ∧
+    -- ordinary numbers: no difference
+    (stepPyN 32 cfg routing ⟨1, 1⟩ kWitness 7 ⟨0, none⟩ (.cpuAffinity (some (.list, [1, 70, -2])))).1 =
+      (stepPyN cpuNumBits cfg routing ⟨1, 1⟩ kWitness 7 ⟨0, none⟩ (.cpuAffinity (some (.list, [1, 70, -2])))).1 := by
   decide
 
 /-- … and in general: a short cut to the caller's own primitives is sound exactly as far as the pid
